@@ -276,6 +276,10 @@ func (m *Message) unpack(src []byte) (string, error) {
 		return strconv.Itoa(bitmapIdx), fmt.Errorf("failed to unpack bitmap: %w", err)
 	}
 
+	// bitmap() marks the bitmap field as set only when it first caches it; do
+	// it here so that a re-used message reports the same fields as a new one
+	m.fieldsMap[bitmapIdx] = struct{}{}
+
 	off += read
 
 	for i := 2; i <= m.bitmap().Len(); i++ {
